@@ -309,7 +309,7 @@ def walk_packets(maxn, rnd=None):
 
 def walks(tier):
     import itertools
-    maxn = 4 if tier == "quick" else 6
+    maxn = 4 if tier == "quick" else 7
     out = []
     for pkt, sec, ids, op in walk_packets(maxn):
         n = len(ids)
